@@ -85,11 +85,14 @@ func TestC25(t *testing.T) {
 		scripts, err := readScripts(sf)
 		must(err)
 		gp, gs := envInt("VERIF_GP", 2), envInt("VERIF_GS", 1)
-		for _, s := range scripts {
+		for si, s := range scripts {
 			tab := TableFromEv(s[0])
-			for _, c := range cfgs {
+			for ci, c := range cfgs {
 				if c.Format < minFormat(tab) {
 					continue
+				}
+				if tier != "quick" && (ci+si)%3 != 0 {
+					continue // thorough: each script under a rotating third of the large matrix
 				}
 				rotate()
 				if err := RunScript(s, c, gp, gs, tr); err != nil {
@@ -132,7 +135,7 @@ func TestC25(t *testing.T) {
 		inFile += len(script)
 		nTables++
 		for j, c := range ok {
-			if j == li {
+			if j == li || (tier != "quick" && (j+i)%3 != 0) {
 				continue
 			}
 			rotate()
